@@ -30,7 +30,7 @@ func init() {
 		Title: "allocation sizes are not taken from peer-controlled fields",
 		Text: "In package restli no argument of bytes.Buffer.Grow, make(…, n) or a slice bound is derived (through local assignments) from http.Response.ContentLength / http.Request.ContentLength or a header value: " +
 			"a hostile peer chooses that number, and Grow / make panic (or exhaust memory) on absurd values in the caller's goroutine.",
-		Props: []string{"C04", "C14"},
+		Props: []string{"C04", "C14", "C05"},
 		Floor: map[string]int{"v2": 1, "root": 1},
 		Run:   runR047,
 	})
